@@ -1,7 +1,7 @@
 CONSTANTS
   NG = 3
   NL = 0
-  Sample = 400
+  Sample = 100
   MaxLen = 3
 INIT Init
 NEXT Next
